@@ -145,6 +145,8 @@ impl Container {
                     return Ok(Some(MayMissPack::MISSING(pack_info)))
                 }
                 Some(MayMissPack::FOUND(p)) => {
+                    #[cfg(jubako_verif)]
+                    crate::verif::point("pack_slot_fill", pack_id.into_u64(), 0);
                     let _ = cache_slot.set(p);
                 }
             }
